@@ -166,6 +166,204 @@ def indent_step_ob(mp, log_dir, tier="quick"):
     return mp.XOb("X-indent_step", statement, "", run)
 
 
+def _vec_intrinsics():
+    def last(ex_, callee, args, st):
+        v = ex_.deref(args[0], st)
+        if isinstance(v, Adt) and v.ty == "Vec":
+            return [("return", Adt("Option", "Some", [v.fields[-1]]) if v.fields else Adt("Option", "None", []), None, st)]
+        return mirx.st_slice_last(ex_, callee, args, st)
+
+    def it(ex_, callee, args, st):
+        v = ex_.deref(args[0], st)
+        if isinstance(v, Adt) and v.ty == "Vec":
+            return [("return", mirx.SeqIter(v, 0, len(v.fields)), None, st)]
+        return mirx.st_slice_iter(ex_, callee, args, st)
+    return {r"\]>::last$": last, r"^core::slice::<impl \[.*\]>::iter$": it}
+
+
+def _cursor(st):
+    return st.facts.get("lex!cursor", ("eq", 0))[1]
+
+
+def _char_stream(chars):
+    """Stand-ins for Lexer::{peek, advance, is_at_end} (their bodies drive a Peekable<CharIndices>, which the executor has no model of): the rest of the
+    source text is the sequence `chars` of symbolic scalar values followed by the end of input; peek looks at the next one, advance consumes it."""
+    n = len(chars)
+
+    def peek(ex_, callee, args, st):
+        k = _cursor(st)
+        return [("return", Adt("Option", "Some", [chars[k]]) if k < n else Adt("Option", "None", []), None, st)]
+
+    def adv(ex_, callee, args, st):
+        k = _cursor(st)
+        if k < n:
+            st.facts["lex!cursor"] = ("eq", k + 1)
+            return [("return", Adt("Option", "Some", [chars[k]]), None, st)]
+        return [("return", Adt("Option", "None", []), None, st)]
+
+    def at_end(ex_, callee, args, st):
+        return [("return", S("bool", "true" if _cursor(st) >= n else "false"), None, st)]
+
+    def opt_eq(ex_, callee, args, st):
+        a, b = ex_.deref(args[0], st), ex_.deref(args[1], st)
+        if not (isinstance(a, Adt) and isinstance(b, Adt) and a.ty == "Option" and b.ty == "Option"):
+            raise Unsupported(f"Option<char> == on {a!r}, {b!r}")
+        if a.variant != b.variant:
+            return [("return", S("bool", "false"), None, st)]
+        if a.variant == "None":
+            return [("return", S("bool", "true"), None, st)]
+        x, y = ex_.deref(a.fields[0], st), ex_.deref(b.fields[0], st)
+        return [("return", S("bool", symex.simplify_bool(f"(= {x.term} {y.term})")), None, st)]
+    return {r"^Lexer::<'_>::peek$": peek, r"^Lexer::<'_>::advance$": adv, r"^Lexer::<'_>::is_at_end$": at_end,
+            r"^<(std::option::)?Option<char> as (std::cmp::)?PartialEq>::eq$": opt_eq}
+
+
+def decision_goals(lv, col, toks, fsd):
+    """the documented decision for column `col` against the open levels `lv` (SMT terms), as (negated goal, description) pairs over one observed outcome"""
+    top = lv[-1]
+    n_ded = toks.count("Dedent") + (int(fsd["pending_dedents"].term) if re.match(r"^\d+$", fsd["pending_dedents"].term) else 10 ** 6)
+    goals = [(f"(not (= {'true' if 'Indent' in toks else 'false'} (> {col} {top})))", "INDENT is not `column right of the innermost level`")]
+    cnt = "(+ 0 " + " ".join(f"(ite (> {x} {col}) 1 0)" for x in lv) + ")"
+    goals.append((f"(not (= {n_ded} {cnt}))", f"{n_ded} DEDENT(s) although the number of levels right of the column differs"))
+    member = "(or " + " ".join(f"(= {col} {x})" for x in lv) + ")"
+    goals.append((f"(not (= {'true' if len(fsd['errors'].fields) else 'false'} (and (< {col} {top}) (not {member}))))",
+                  "the inconsistent-indentation error is not `column left of the innermost level and equal to no open level`"))
+    left = [x.term for x in fsd["indent_stack"].fields]
+    keep = "(+ 0 " + " ".join(f"(ite (<= {x} {col}) 1 0)" for x in lv) + f" (ite (> {col} {top}) 1 0))"
+    goals.append((f"(not (= {len(left)} {keep}))", f"{len(left)} levels stay open although the number of levels not right of the column (plus the new one) differs"))
+    m_ = min(len(left), len(lv))
+    if left[:m_] != list(lv[:m_]) or (len(left) > len(lv) and (len(left) != len(lv) + 1)):
+        goals.append(("true", f"the levels left open {left} are not a prefix of the open levels {list(lv)}"))
+    elif len(left) == len(lv) + 1:
+        goals.append((f"(not (= {left[-1]} {col}))", "the level pushed is not the column"))
+    return goals
+
+
+def indent_count_ob(mp, log_dir, tier="quick"):
+    statement = ("Lexer::handle_indentation as a whole on the next N symbolic characters of the source (any Unicode scalar values) and a symbolic stack of open levels, against a "
+                 "reference: leading spaces count 1 column, tabs 4, carriage returns 0; a line whose first other character is `#` or a line feed is invisible (no token, no level "
+                 "opened or closed, the lexer stays at line start, and exactly the line - through its line feed - is consumed); at the end of input nothing is emitted and no level changes; otherwise "
+                 "the INDENT / DEDENT / error decision is the documented one for the counted column and the first character of the line is not consumed")
+
+    def run():
+        import parse_props as pp
+        t0 = time.time()
+        P, R = pp.load()
+        fs = [v for k, v in P.fns.items() if k.endswith("handle_indentation")]
+        if len(fs) != 1:
+            raise Inconclusive("Lexer::handle_indentation not found in the MIR dump")
+        f = fs[0]
+        td = R.resolve("lexer::Lexer")
+        names = [x[0] for x in td.variants[0][1]] if td else []
+        if not all(n_ in names for n_ in ("indent_stack", "pending_dedents", "at_line_start", "tokens", "errors")):
+            raise Inconclusive("Lexer no longer has the fields of the layout state")
+        N = 3 if tier == "quick" else 5
+        bad, queries, npaths, encoded = [], 0, 0, set()
+        for depth in (2, 3):
+            ex = mirx.make_executor(P, R, max_paths=2000000)
+            ex.opaque_calls = mirx.slice_opaque
+            ex.model_sequences = True
+            ex.model_vecs = True
+            ex.seq_bound = 3
+            ex.tolerate_unsupported = True
+            ex.max_steps = 40000
+            ex.loop_bound = N + 2
+            ex.char_consts_as_int = True
+            ex.summarize = (r"Token::new$", r"Span::new$", r"CompileError::new$", r"fmt::", r"^format$", r"Arguments", r"must_use")
+            chars = [ex.sym_value("u32", f"ch{k}") for k in range(N)]
+            ex.enc.side += [f"(and (<= 0 {c.term}) (<= {c.term} 1114111))" for c in chars]
+            ex.state_intrinsics = {**_char_stream(chars), **_vec_intrinsics(), **dict(mirx.STATE_INTRINSICS)}
+            lv = [S("int", "0", 64, False)] + [ex.sym_value("usize", n_) for n_ in ("a", "b")[:depth - 1]]
+            ex.enc.side += [f"(< {x.term} {y.term})" for x, y in zip(lv, lv[1:])]
+            known = {"indent_stack": Adt("Vec", "lit", lv), "pending_dedents": S("int", "0", 64, False), "at_line_start": S("bool", "true"),
+                     "tokens": Adt("Vec", "lit", []), "errors": Adt("Vec", "lit", []), "current_pos": ex.sym_value("usize", "pos"),
+                     "bracket_depth": S("int", "0", 64, False)}
+            st0 = symex.State()
+            st0.store[0] = {"_self": Adt("Lexer", None, [(n_, known.get(n_, Opaque(n_))) for n_ in names])}
+            ex.call_stack = [f.name]
+            try:
+                outs = ex._run(f, [symex.Ref(0, Place("_self"))], {}, 0, st0)
+            except (Unsupported, symex.PathExplosion) as x:
+                bad.append(f"depth {depth}: handle_indentation is not executable by the model: {str(x)[:100]}")
+                continue
+            finally:
+                ex.call_stack = []
+            encoded |= set(ex.encoded)
+            lvt = [x.term for x in lv]
+            cs = [c.term for c in chars]
+
+            # ---- the reference, as nested ite terms over the N characters
+            def nl(k):
+                return str(N) if k == N else f"(ite (= {cs[k]} 10) {k} {nl(k + 1)})"
+
+            def ref(k, col):
+                if k == N:
+                    return "1", col, str(N), "0"
+                sp, tb, cr = ref(k + 1, f"(+ {col} 1)"), ref(k + 1, f"(+ {col} 4)"), ref(k + 1, col)
+                c = cs[k]
+
+                def pick(i_, other):
+                    return f"(ite (= {c} 32) {sp[i_]} (ite (= {c} 9) {tb[i_]} (ite (= {c} 13) {cr[i_]} {other})))"
+                return (pick(0, f"(ite (or (= {c} 35) (= {c} 10)) 0 2)"), pick(1, col), pick(2, f"(ite (= {c} 35) {nl(k)} (ite (= {c} 10) {k + 1} {k}))"),
+                        pick(3, f"(ite (= {c} 35) 1 0)"))
+            kind, colr, curr, iscomment = ref(0, "0")
+            prefix = mp.smt_lines(ex, []) + ["(declare-const rkind Int)", "(declare-const rcol Int)", "(declare-const rcur Int)", "(declare-const rcomment Int)",
+                                             f"(assert (= rcomment {iscomment}))", f"(assert (= rkind {kind}))", f"(assert (= rcol {colr}))", f"(assert (= rcur {curr}))"]
+            feas = solver.check_many(prefix, [[symex.conj(o.pc)] for o in outs], "z3", 600)
+            queries += len(outs)
+            qs, meta = [], []
+            for o, fz in zip(outs, feas):
+                if fz == "unsat":
+                    continue
+                npaths += 1
+                if o.kind != "return":
+                    bad.append(f"depth {depth}: {o.kind}: {o.info}")
+                    continue
+                fsd = dict(o.state.store[0]["_self"].fields)
+                toks = tuple((re.search(r"TokenKind::(\w+)", " ".join(e[1])) or [None, "?"])[1] for e in o.state.events if e[0].endswith("Token::new"))
+                left = [x.term for x in fsd["indent_stack"].fields]
+                quiet = not toks and fsd["pending_dedents"].term == "0" and not fsd["errors"].fields and left == lvt
+                als = fsd["at_line_start"].term
+                out = (toks, fsd["pending_dedents"].term, len(fsd["errors"].fields), tuple(left), als, _cursor(o.state))
+                a0 = "true" if (quiet and als == "true") else "false"
+                a1 = "true" if quiet else "false"       # at the end of input `at_line_start` is never read again (tokenize stops calling scan_token)
+                a2 = "false" if als != "false" else "(and " + " ".join(symex.neg(g_) for g_, _ in decision_goals(lvt, "rcol", toks, fsd)) + ")"
+                k_ = _cursor(o.state)
+                # a comment line is consumed up to its line feed; whether the line feed itself is consumed here or seen as a blank line by the next call is not observable
+                goal = f"(and (ite (= rcomment 1) (or (= rcur {k_}) (and (< rcur {N}) (= (+ rcur 1) {k_}))) (= rcur {k_})) (=> (= rkind 0) {a0}) (=> (= rkind 1) {a1}) (=> (= rkind 2) {a2}))"
+                qs.append([symex.conj(list(o.pc) + [symex.neg(goal)])])
+                meta.append(out)
+            verd = solver.check_many(prefix, qs, "z3", 600) if qs else []
+            queries += len(qs)
+            for out, v_, q_ in zip(meta, verd, qs):
+                if v_ != "unsat":
+                    bad.append(f"depth {depth}: outcome {out} is not the reference's on some characters [{v_}]")
+        r = {"id": "X-indent_count", "engine": "E2-X mirsmt", "statement": statement,
+             "bound": f"the next N = {N} characters of the source are symbolic scalar values (0..=0x10FFFF), then the input ends; stacks [0, a] and [0, a, b] with 0 < a < b symbolic; "
+                      "Lexer::peek / advance / is_at_end are replaced by a character-stream stand-in (look at / consume the next character); longer leading runs are outside",
+             "functions_encoded": sorted(x + " (MIR)" for x in encoded), "paths": npaths, "queries": queries, "wall_s": round(time.time() - t0, 2)}
+        if npaths == 0 and not bad:
+            r.update(status="inconclusive", reason="no feasible path explored")
+            return r
+        r["vacuity_ok"] = True
+        if not bad:
+            r.update(status="held", solver=f"{queries} z3 queries: every path's outcome is the reference's outcome for all characters and levels it admits")
+            return r
+        why = "; ".join(bad[:4])
+        broken, textn = layout_native(log_dir)
+        r["native"] = textn[:500]
+        if broken:
+            os.makedirs(os.path.join(common.REPLAYS_DIR, "MIRX"), exist_ok=True)
+            rp = os.path.join(common.REPLAYS_DIR, "MIRX", "X-indent_count.replay")
+            open(rp, "w").write(f"mirx lexlayout\n# {why[:500]}\n# native: {textn[:500]}\n")
+            r.update(status="violated", replay=rp, counterexample={"path": why[:500], "native": textn[:500]})
+        else:
+            r.update(status="inconclusive", reason=f"handle_indentation deviates from the reference ({why[:300]}) but every layout variant of the example program parses to the same program")
+        return r
+    return mp.XOb("X-indent_count", statement, "", run)
+
+
+
 LAYOUT_BASE = '''def f(n: int) -> int:
     if n > 0:
         while n > 1:
@@ -203,10 +401,12 @@ def layout_variants(b):
         "eight_spaces": reindent("        "),
         "tabs": reindent("\t"),
         "crlf": b.replace("\n", "\r\n"),
+        "crlf_blank_inside": b.replace("        return n\n", "        return n\n\n").replace("            n = n - 1\n", "            n = n - 1\n\n").replace("\n", "\r\n"),
         "trailing_spaces": "\n".join((l + "  " if l.strip() else l) for l in b.split("\n")),
         "blank_lines": b.replace("        return n\n", "        return n\n\n"),
         "comments": b.replace("    if n > 0:\n", "    # leading comment\n    if n > 0:  # trailing\n").replace("            n = n - 1\n", "            n = n - 1\n# col-0 comment\n        # deeper comment\n"),
         "bracket_breaks": b.replace("def f(n: int) -> int:", "def f(\n        n: int\n) -> int:").replace("List[int]", "List[\n  int\n    ]"),
+        "mixed_tabs": "\n".join((reindent("\t").split("\n")[n_] if n_ % 2 else l) for n_, l in enumerate(b.split("\n"))),
         "blank_with_spaces": b.replace("\ndef g", "        \ndef g"),
     }
 
@@ -240,4 +440,4 @@ def build(pid, tier, log_dir):
     import mirx_props as mp
     if pid != "C10":
         return []
-    return [indent_step_ob(mp, log_dir, tier)]
+    return [indent_step_ob(mp, log_dir, tier), indent_count_ob(mp, log_dir, tier)]
